@@ -43,3 +43,8 @@ def count_prefix(xs, k, pred):
 def nat_of_str(s):
     """the number denoted by a non-empty string of ASCII digits, else -1 (SMT-LIB str.to_int)"""
     return int(s) if s != '' and all(c in '0123456789' for c in s) else -1
+
+
+def items_of(it):
+    """the (remaining) items of an iterator or sequence, as a list"""
+    return list(it)
